@@ -176,12 +176,15 @@ def run_one(ctx, rng, cands, spec):
     names = list(st['names'].values())
     # priming commands (state that listing must not disturb and that `list` without matcher uses)
     prim = []
-    f_text, f_ast = c12.gen_step(rng, g)
-    if f_ast is not None and rng.random() < 0.6:
-        prim.append(('filter ' + f_text, 'filter', f_ast))
-    b_text, b_ast = c12.gen_step(rng, g)
-    if b_ast is not None and rng.random() < 0.5:
-        prim.append(('breakpoint ' + b_text, 'break', b_ast))
+    for _ in range(rng.choice([0, 1, 2, 3])):
+        f_text, f_ast = c12.gen_step(rng, g)
+        if f_ast is not None:
+            prim.append(('filter ' + f_text, 'filter', f_ast))
+    for _ in range(rng.choice([0, 1, 2])):
+        b_text, b_ast = c12.gen_step(rng, g)
+        if b_ast is not None:
+            prim.append(('breakpoint ' + b_text, 'break', b_ast))
+    rng.shuffle(prim)
     case_base = {'lines': lines, 'prime': [p[0] for p in prim]}
     s = Session()
     mon = Monitor(ctx, st, projs, case_base)
@@ -190,6 +193,10 @@ def run_one(ctx, rng, cands, spec):
         if kind == 'filter':
             mon.state = joinref.join(mon.state, ast)
     qs = gen_queries(rng, g, mon, names, spec['queries'])
+    # the very same texts that were used to extend the filter / breakpoint (a cache keyed by text must not leak the joined matcher)
+    for cmd, kind, ast in prim:
+        if '~' not in cmd:
+            qs.insert(rng.randrange(len(qs) + 1), ('list ' + cmd.split(' ', 1)[1], ast, 'capsel', None))
     cut = rng.randint(1, len(lines))
     positions = sorted(set([cut, len(lines)]))
     fed = 0
@@ -236,11 +243,90 @@ def run_one(ctx, rng, cands, spec):
         ctx.sample({'prime': case_base['prime'], 'queries_head': script[:8], 'lines_head': lines[:2]})
 
 
+def run_late(ctx, rng, cands, spec):
+    """a log attached late: the lines that created some objects are missing, so messages on them stay unresolved.  The
+    listing must still be exactly the recorded messages of the scope that match - here 'match' is taken from the tool's own
+    parsed matcher evaluated by the harness over Connection.messages() (isolates scope / order / cap / count logic)."""
+    k = rng.randint(2, 3)
+    st = streams.build(rng, cands, k=k, n_each=tuple(spec['n_each']), tagged=True)
+    victim = rng.randrange(k)
+    cut = rng.randint(1, max(1, sum(1 for e in st['entries'] if e['ci'] == victim) // 2))
+    seen = 0
+    entries = []
+    for e in st['entries']:
+        if e['ci'] == victim and seen < cut:
+            seen += 1
+            continue
+        entries.append(e)
+    lines = [e['line'] for e in entries]
+    ref = Session()
+    ref.feed([l + '\n' for l in lines])
+    per = ref.per_read()
+    ref_text = {}
+    for i in range(len(lines)):
+        ms = [p for kk, p in per.get(i, []) if kk == 'out' and outline.parse_line(p)['kind'] == 'msg']
+        if len(ms) != 1:
+            return          # (an ill-formed line that is not shown as one message: outside this routine)
+        ref_text[i] = ms[0].strip().split(' ', 1)[1]
+    s = Session()
+    s.feed([l + '\n' for l in lines])
+    from core import matcher as matcher_mod
+    conns = {c.name(): c for c in s.cm.connections()}
+    # arrival order per line: connection names by first appearance of the tags
+    names = {}
+    for e in entries:
+        if e['ci'] not in names:
+            names[e['ci']] = streams.conn_name(len(names))
+    line_conn = [names[e['ci']] for e in entries]
+    pos = {n: 0 for n in conns}
+    arrival = []
+    for i, n in enumerate(line_conn):
+        msgs = conns[n].messages()
+        if pos[n] >= len(msgs):
+            ctx.violation('not-recorded', 'connection %s recorded %d messages, more arrived' % (n, len(msgs)), {'lines': lines})
+            return
+        arrival.append((i, n, msgs[pos[n]]))
+        pos[n] += 1
+    e0 = rng.choice(entries)
+    texts = ['*', e0['rec']['iface'], '.' + e0['rec']['name'], str(e0['rec']['id']), names[victim] + ':', '! ' + e0['rec']['iface'], 'wl_*', '.new', '.destroyed']
+    unresolved = sum(1 for i, n, m in arrival if m.obj.connection is None)
+    ctx.count('late_unresolved_messages', unresolved)
+    for sel in [None] + sorted(conns):
+        s.command('connection ' + (sel or 'all'))
+        for t in rng.sample(texts, 4):
+            try:
+                pm = matcher_mod.parse(t).simplify()
+            except RuntimeError:
+                continue
+            scope = [(i, m) for i, n, m in arrival if sel is None or n == sel]
+            hit = [i for i, m in scope if pm.matches(m)]
+            for cap in (None, 1, max(1, len(hit) - 1), len(hit) + 1):
+                cmd = 'list ' + t + ('' if cap is None else ' ~ %d' % cap)
+                outs, errs, items = run_query(s, cmd)
+                ctx.ev()
+                ctx.count('late_queries')
+                want = hit if cap is None else hit[-cap:]
+                listed = [it['text'].strip().split(' ', 1)[1] for it in items if it['kind'] == 'msg']
+                case = {'lines': lines, 'prime': [], 'script': ['connection ' + (sel or 'all')], 'query': cmd, 'late': True}
+                if listed != [ref_text[i] for i in want]:
+                    ctx.violation('list-selection', '[late attach] %r with connection %s selected listed %d messages, expected %d of the %d recorded in scope (%d unresolved in the stream)' % (
+                        cmd, sel, len(listed), len(want), len(scope), unresolved), case)
+                    return
+                tail = [it for it in items if it['kind'] == 'count']
+                if want and (not tail or tail[0]['matched'] + tail[0]['didnt'] + tail[0]['not_checked'] != len(scope) or tail[0]['matched'] != len(want)):
+                    ctx.violation('list-counts', '[late attach] %r: %r, %d recorded in scope' % (cmd, tail and tail[0]['text'], len(scope)), case)
+                    return
+                if 0 < len(want) < len(scope) and unresolved:
+                    ctx.sig(['late', h64(lines), sel, cmd])
+
+
 def run(ctx, spec):
     env.setup()
     cands = wlxml.shipped(env.REPO)
     for i in range(spec['n']):
         run_one(ctx, ctx.rng, cands, spec)
+        if i % 2 == 0:
+            run_late(ctx, ctx.rng, cands, spec)
         if ctx.out_of_time():
             break
 
